@@ -18,6 +18,7 @@ import (
 	"os"
 	"runtime"
 	"strings"
+	"sync"
 	"sync/atomic"
 	"testing"
 	"time"
@@ -195,7 +196,7 @@ func c05Watchdog(t *testing.T, slots []*c05Slot, done <-chan struct{}) {
 				r.Eval()
 				r.NT("hang")
 				r.NT("hang2")
-				r.Violationf("C05:hang:"+c.Entry, *c, "no progress for 120 s on one input: entry %s options %s input %s", c.Entry, c.Opt, c.Hex)
+				c05V(r, "C05:hang:"+c.Entry, *c, "no progress for 120 s on one input: entry %s options %s input %s", c.Entry, c.Opt, c.Hex)
 				r.Finish()
 				os.Exit(1)
 			}
@@ -221,7 +222,7 @@ func (x *c05Renderer) fail(what string, v any, pi *c05PanicInfo) {
 	x.bad = true
 	cls := pi.Key()
 	cls = cls[strings.LastIndex(cls, ":")+1:]
-	x.p.r.Violationf("C05:panic:render:"+c05TypeName(v)+":"+cls, x.p.cs(x.in), "%s on the %T returned by %s [%s] for input %s panics: %s", what, v, x.p.entry, x.p.o.Name, c05Hex(x.in), pi)
+	c05V(x.p.r, "C05:panic:render:"+c05TypeName(v)+":"+cls, x.p.cs(x.in), "%s on the %T returned by %s [%s] for input %s panics: %s", what, v, x.p.entry, x.p.o.Name, c05Hex(x.in), pi)
 }
 
 func (x *c05Renderer) str(v interface{ String() string }) {
@@ -232,7 +233,7 @@ func (x *c05Renderer) str(v interface{ String() string }) {
 	}
 	if c05Swallowed(s) {
 		x.bad = true
-		x.p.r.Violationf("C05:panic-swallowed-by-fmt:String:"+c05TypeName(v), x.p.cs(x.in), "String() of the %T returned by %s [%s] for input %s hides a panic: %.300s", v, x.p.entry, x.p.o.Name, c05Hex(x.in), s)
+		c05V(x.p.r, "C05:panic-swallowed-by-fmt:String:"+c05TypeName(v), x.p.cs(x.in), "String() of the %T returned by %s [%s] for input %s hides a panic: %.300s", v, x.p.entry, x.p.o.Name, c05Hex(x.in), s)
 	}
 }
 
@@ -244,7 +245,7 @@ func (x *c05Renderer) json(v any) {
 	}
 	if c05Swallowed(string(b)) {
 		x.bad = true
-		x.p.r.Violationf("C05:panic-swallowed-by-fmt:JSON:"+c05TypeName(v), x.p.cs(x.in), "JSON of the %T returned by %s [%s] for input %s hides a panic: %.300s", v, x.p.entry, x.p.o.Name, c05Hex(x.in), b)
+		c05V(x.p.r, "C05:panic-swallowed-by-fmt:JSON:"+c05TypeName(v), x.p.cs(x.in), "JSON of the %T returned by %s [%s] for input %s hides a panic: %.300s", v, x.p.entry, x.p.o.Name, c05Hex(x.in), b)
 	}
 }
 
@@ -351,7 +352,7 @@ func (x *c05Renderer) msg(m *bgp.BGPMessage) []byte {
 		b, _ := json.Marshal(m)
 		if c05Swallowed(string(b)) {
 			x.bad = true
-			x.p.r.Violationf("C05:panic-swallowed-by-fmt:JSON:BGPMessage", x.p.cs(x.in), "JSON of the message returned by %s [%s] for input %s hides a panic: %.300s", x.p.entry, x.p.o.Name, c05Hex(x.in), b)
+			c05V(x.p.r, "C05:panic-swallowed-by-fmt:JSON:BGPMessage", x.p.cs(x.in), "JSON of the message returned by %s [%s] for input %s hides a panic: %.300s", x.p.entry, x.p.o.Name, c05Hex(x.in), b)
 		}
 	})
 	ps := c05Try(func() { out, _ = m.Serialize(x.p.o.Opts...) })
@@ -506,7 +507,7 @@ func (p *c05Probe) Run(input []byte) {
 			m, perr, pi = p.callBody(bgp.BGP_MSG_UPDATE, exact)
 		}
 		if pi != nil {
-			r.Violationf("C05:panic:"+pi.Key(), p.cs(keep), "%s [%s] panics on input %s: %s", p.entry, p.o.Name, c05Hex(keep), pi)
+			c05V(r, "C05:panic:"+pi.Key(), p.cs(keep), "%s [%s] panics on input %s: %s", p.entry, p.o.Name, c05Hex(keep), pi)
 			return
 		}
 		if perr != nil && m != nil && !c05NonFatal(m, perr) {
@@ -532,7 +533,7 @@ func (p *c05Probe) Run(input []byte) {
 		var a bgp.PathAttributeInterface
 		a, perr, pi = p.callAttr(exact)
 		if pi != nil {
-			r.Violationf("C05:panic:"+pi.Key(), p.cs(keep), "attribute decode [%s] panics on input %s: %s", p.o.Name, c05Hex(keep), pi)
+			c05V(r, "C05:panic:"+pi.Key(), p.cs(keep), "attribute decode [%s] panics on input %s: %s", p.o.Name, c05Hex(keep), pi)
 			return
 		}
 		if perr == nil {
@@ -547,7 +548,7 @@ func (p *c05Probe) Run(input []byte) {
 		var n bgp.NLRI
 		n, perr, pi = p.callNLRI(exact)
 		if pi != nil {
-			r.Violationf("C05:panic:"+pi.Key(), p.cs(keep), "NLRIFromSlice(%s) [%s] panics on input %s: %s", p.fam, p.o.Name, c05Hex(keep), pi)
+			c05V(r, "C05:panic:"+pi.Key(), p.cs(keep), "NLRIFromSlice(%s) [%s] panics on input %s: %s", p.fam, p.o.Name, c05Hex(keep), pi)
 			return
 		}
 		if perr == nil && n != nil {
@@ -566,7 +567,7 @@ func (p *c05Probe) Run(input []byte) {
 		var c bgp.ParameterCapabilityInterface
 		c, perr, pi = p.callCap(exact)
 		if pi != nil {
-			r.Violationf("C05:panic:"+pi.Key(), p.cs(keep), "DecodeCapability panics on input %s: %s", c05Hex(keep), pi)
+			c05V(r, "C05:panic:"+pi.Key(), p.cs(keep), "DecodeCapability panics on input %s: %s", c05Hex(keep), pi)
 			return
 		}
 		if perr == nil && c != nil {
@@ -584,7 +585,7 @@ func (p *c05Probe) Run(input []byte) {
 		for i < len(keep) && exact[i] == keep[i] {
 			i++
 		}
-		r.Violationf("C05:input-buffer-modified:"+p.entry, p.cs(keep), "%s [%s] modified the caller's buffer at offset %d: before %s after %s", p.entry, p.o.Name, i, c05Hex(keep), c05Hex(exact))
+		c05V(r, "C05:input-buffer-modified:"+p.entry, p.cs(keep), "%s [%s] modified the caller's buffer at offset %d: before %s after %s", p.entry, p.o.Name, i, c05Hex(keep), c05Hex(exact))
 	}
 }
 
@@ -647,11 +648,11 @@ func (p *c05Probe) guard(msg []byte, err0 error, out0 []byte) {
 				out, _ = m.Serialize(p.o.Opts...)
 			}
 		}); pi != nil {
-			p.r.Violationf("C05:panic:"+pi.Key(), p.cs(msg), "ParseBGPMessage [%s] of %s followed by 32 x %#02x in the same buffer panics: %s", p.o.Name, c05Hex(msg), fill, pi)
+			c05V(p.r, "C05:panic:"+pi.Key(), p.cs(msg), "ParseBGPMessage [%s] of %s followed by 32 x %#02x in the same buffer panics: %s", p.o.Name, c05Hex(msg), fill, pi)
 			return
 		}
 		if (err == nil) != (err0 == nil) || !bytes.Equal(out, out0) {
-			p.r.Violationf("C05:over-read:result-depends-on-bytes-beyond-message-length", p.cs(msg), "ParseBGPMessage [%s] of %s: result changes when 32 x %#02x follow the message in the caller's buffer (err %v vs %v)", p.o.Name, c05Hex(msg), fill, err0, err)
+			c05V(p.r, "C05:over-read:result-depends-on-bytes-beyond-message-length", p.cs(msg), "ParseBGPMessage [%s] of %s: result changes when 32 x %#02x follow the message in the caller's buffer (err %v vs %v)", p.o.Name, c05Hex(msg), fill, err0, err)
 			return
 		}
 	}
@@ -929,6 +930,7 @@ func TestVerif_C05_Strings(t *testing.T) {
 	os.Setenv("C05_PART", "strings")
 	r := vr.Start(t, "C05", "strings")
 	defer r.Finish()
+	defer c05Smallest(r)
 	r.Rule = "every byte string of length <= N (full alphabet) at: ParseBGPBody with header type 0..6 (UPDATE with ADD-PATH off and on; the other types ignore options), ParseBGPMessage with a valid header, every type octet and every body <= 2, DecodeCapability, GetPathAttribute+DecodeFromBytes (4-octet and 2-octet AS), NLRIFromSlice for each of the 26 families; non-trivial = distinct accepted (entry, outcome, structural shape / first two input bytes) for which every rendering clause ran"
 	if r.ReplayPath() != "" {
 		c05Replay(t, r)
@@ -1024,6 +1026,7 @@ func TestVerif_C05_AttrSpace(t *testing.T) {
 	os.Setenv("C05_PART", "attrspace")
 	r := vr.Start(t, "C05", "attrspace")
 	defer r.Finish()
+	defer c05Smallest(r)
 	r.Rule = "attribute = flags (16 upper-nibble values) x type (256) x declared length in {0,1,2,3,true,true-1,true+1,255,256,65535} x value over {00,01,7f,80,ff}^<=L, decoded directly and as the only attribute of an UPDATE body (the returned message is rendered also when the error is attribute-discard / treat-as-withdraw), under 4 option sets (ADD-PATH x AS width); non-trivial = distinct (attribute type, input digest) accepted directly, and distinct shapes of UPDATEs returned"
 	if r.ReplayPath() != "" {
 		c05Replay(t, r)
@@ -1092,6 +1095,7 @@ func TestVerif_C05_Mutations(t *testing.T) {
 	os.Setenv("C05_PART", "mutations")
 	r := vr.Start(t, "C05", "mutations")
 	defer r.Finish()
+	defer c05Smallest(r)
 	r.Rule = "seeds = every single-element message of the bgpgen catalogue (all message types, every capability, every attribute value, NLRI/withdrawn boundaries, every family in MP_REACH/MP_UNREACH; <= 512 bytes) serialised under each compatible option set of the 8 non-extended ones (ExtendedMessage only lifts the Serialize size limit, irrelevant for <=512-byte seeds); mutants = every position x 14 values (12 fixed + original-1/+1), every adjacent pair as a 2-octet length in {0,1,v-1,v+1,ffff}, every truncation with and without header-length adjustment; additionally every position x all 256 values on the one-per-kind seed catalogue (4 option sets); each mutant through ParseBGPMessage (exact-capacity buffer, and again followed by 32 guard bytes in the same buffer); thorough: additionally all pairs (structural length field located by refwire x {0,1,len-1,len+1,max}) x (every position x 12 values) on the seed catalogue (one per kind); non-trivial = distinct (outcome, structural shape of the returned message: attribute types, family and element counts, capability codes)"
 	if r.ReplayPath() != "" {
 		c05Replay(t, r)
@@ -1233,6 +1237,7 @@ func TestVerif_C05_Mutations(t *testing.T) {
 func TestVerif_C05_Alloc(t *testing.T) {
 	r := vr.Start(t, "C05", "alloc")
 	defer r.Finish()
+	defer c05Smallest(r)
 	r.Rule = "allocation of the parse call alone (TotalAlloc delta, one goroutine): ParseBGPMessage on every seed-catalogue message (one per kind, <= 512 bytes, 4 option sets) under every single mutation, plus every byte string <= 2 at every entry point; measured in batches of 32 cases, a batch over 32 KiB is re-measured case by case against 64 KiB + 512 B/input byte; non-trivial = distinct (entry, allocation size class)"
 	if r.ReplayPath() != "" {
 		var cs c05Case
@@ -1369,8 +1374,52 @@ func c05AllocOne(r *vr.Report, o bgpgen.OptSet, fam bgp.Family, cs c05Case, in [
 	r.NT(fmt.Sprintf("alloc:%s:%d", entry, bitsLen(d)))
 	if over == 4 {
 		cs.Hex = hex.EncodeToString(in)
-		r.Violationf("C05:allocation-over-budget:"+entry, cs, "%s [%s]: parsing %d input bytes %s allocates %d bytes (budget %d), 4 of 4 measurements", entry, o.Name, len(in), c05Hex(in), d, budget)
+		c05V(r, "C05:allocation-over-budget:"+entry, cs, "%s [%s]: parsing %d input bytes %s allocates %d bytes (budget %d), 4 of 4 measurements", entry, o.Name, len(in), c05Hex(in), d, budget)
 	} else if over > 0 {
 		r.Outcome("alloc:unstable-measurement(not reported)")
 	}
+}
+
+// ---------------------------------------------------------------------------------------------
+// smallest example per key: vr keeps the first example recorded for a key (per worker, then in merge
+// order), which under Parallel is not the simplest one. c05V records the violation in vr as usual (so
+// counts are right) and remembers the smallest case seen for the key; c05Smallest, deferred after
+// r.Finish is deferred (so it runs before it), puts that case into the report.
+
+type c05BestV struct {
+	size   int
+	what   string
+	replay any
+}
+
+var c05Best = struct {
+	sync.Mutex
+	m map[string]*c05BestV
+}{m: map[string]*c05BestV{}}
+
+func c05V(r *vr.Report, key string, replay any, format string, a ...any) {
+	what := fmt.Sprintf(format, a...)
+	r.Violation(key, what, replay)
+	size := len(what)
+	if cs, ok := replay.(c05Case); ok {
+		size = len(cs.Hex)
+	}
+	c05Best.Lock()
+	// ties: the plainest option set first, then the text (deterministic whatever the worker interleaving)
+	plain := func(w string) bool { return strings.Contains(w, "[noaddpath+as4]") }
+	if b := c05Best.m[key]; b == nil || size < b.size || (size == b.size && (plain(what) && !plain(b.what) || plain(what) == plain(b.what) && what < b.what)) {
+		c05Best.m[key] = &c05BestV{size, what, replay}
+	}
+	c05Best.Unlock()
+}
+
+func c05Smallest(r *vr.Report) {
+	c05Best.Lock()
+	defer c05Best.Unlock()
+	for _, v := range r.Violations {
+		if b := c05Best.m[v.Key]; b != nil {
+			v.What, v.Replay = b.what, b.replay
+		}
+	}
+	c05Best.m = map[string]*c05BestV{}
 }
